@@ -180,7 +180,9 @@ def rule_unscaling_once(eng, rep, rule="C11-4.jacobian-is-un-scaled-exactly-once
         problems.append(("guard-scaling", "the rescaling is not guarded by `scaling_changes is not None`"))
     if not g_j:
         problems.append(("guard-none", "the rescaling is not guarded by `%s is not None`" % J))
-    extra = [a for (_b, a) in gs if not (a.op == "isnot" and ekey(a.lhs) in ("scaling_changes", J)) and ekey(a.lhs) != "exit_info"]
+    # (the exit test of an earlier `while` loop is not a guard of what follows the loop: every run gets there eventually)
+    while_tests = set(m for (h, kind, lst) in cfg.loops if kind == "while" for m in cfg.nodes_of_kind("cond") if cfg.stmt_of(m) is lst and n not in cfg.loop_nodes(h))
+    extra = [a for (_b, a) in gs if _b not in while_tests and not (a.op == "isnot" and ekey(a.lhs) in ("scaling_changes", J)) and ekey(a.lhs) != "exit_info"]
     if extra:
         problems.append(("extra-guard", "the rescaling is additionally guarded by `%r`: some scaled runs return scaled columns" % extra[0]))
     # it lies between the last (re)definition of J by a run and the construction of the result
